@@ -127,9 +127,12 @@ func gobEncodeItem(it Item) ([]byte, error) {
 	if IsObject(it) {
 		switch it.GetType() {
 		case IRIType:
-			var bytes []byte
-			bytes, err = it.(IRI).GobEncode()
-			b.Write(bytes)
+			// only reachable for a struct value whose type NAME is "IRI" (a real IRI never satisfies IsObject)
+			if iri, ok := it.(IRI); ok {
+				var bytes []byte
+				bytes, err = iri.GobEncode()
+				b.Write(bytes)
+			}
 		case "", ObjectType, ArticleType, AudioType, DocumentType, EventType, ImageType, NoteType, PageType, VideoType:
 			err = OnObject(it, func(ob *Object) error {
 				bytes, err := ob.GobEncode()
